@@ -1365,6 +1365,8 @@ pub fn plan(property: &str, tier: Tier) -> Option<Plan>
                     {
                         v.push(Op::RegisterNew(Variant::Plain, Bundle::one(Trig::Removal(Comp::A)), Mode::Revokable));
                         v.push(Op::RegisterNew(Variant::Plain, Bundle::one(Trig::Mutation(Comp::A)), Mode::Revokable));
+                        // a revokable entity-scoped removal reactor (its revocation edits the entity's own list)
+                        v.push(Op::RegisterNew(Variant::Plain, Bundle::one(Trig::EntityRemoval(Comp::A, 0)), Mode::Revokable));
                     }
                     for k in i.ready_tokens() { v.push(Op::Revoke(k)); }
                     v
